@@ -182,7 +182,7 @@ Proof.
   pose proof (delta_write_bytes_fine sz d l SENDER_BUFFER Edi Eib) as Hwf.
   destruct (delta_write_bytes sz d SENDER_BUFFER) as [bs|ew|sw|] eqn:Ew; try contradiction; [|discriminate].
   pose proof (delta_write_bytes_inv sz d l _ _ Edi Eib Ew) as Ebs.
-  pose proof (delta_write_bytes_len d _ _ Ew) as Hlen. unfold SENDER_BUFFER in Hlen.
+  pose proof (delta_write_bytes_len d _ _ Ew) as Hlen. unfold SENDER_BUFFER, GEN_SENDER_BUFFER_BYTES in Hlen.
   assert (Hlen' : Z.of_nat (length bs) <= 65536) by lia.
   assert (Hne : bs <> []).
   { intros E0. pose proof (enc_length l Hli) as Hel. rewrite <- Ebs, E0 in Hel. cbn [length] in Hel. lia. }
@@ -251,13 +251,20 @@ Lemma add_delta_genuine h st t e d :
   let r := add_delta st (Some (Snap.crc (sn_raw (h_snap e)))) (h_base e) t d in
   snaps_like h (st_snaps (fst r))
   /\ fine_out (fst (snd r))
-  /\ forall X, fst (snd r) = Ok X -> like (h_snap e) X.
+  /\ (forall X, fst (snd r) = Ok X -> like (h_snap e) X)
+  /\ (forall e', fst (snd r) = Err e' -> e' = SOldDelta \/ e' = SUnknownSnap)
+  /\ snd (snd r) = [].
 Proof.
   intros Hok Hsn He Ed. destruct (Hok t e He) as [E _].
   destruct (eo_apply _ _ _ E) as (d' & Ed' & Hap). rewrite Ed in Ed'. injection Ed' as <-.
   pose proof (eo_base _ _ _ E) as Hb.
   cbv zeta. unfold add_delta.
-  destruct (t <=? front_tick st); [cbn [fst snd]; split; [exact Hsn|split; [exact I|intros X H; discriminate]]|].
+  destruct (t <=? front_tick st).
+  { cbn [fst snd]. split; [exact Hsn|]. split; [exact I|]. split; [intros X H; discriminate|].
+    split; [intros e' [= <-]; left; reflexivity|reflexivity]. }
+  assert (Hws0 : (if (h_base e <? 0) && negb (h_base e =? -1) then [SWeirdNegativeDeltaTick] else []) = []).
+  { destruct (h_base e <? 0) eqn:E0; [|reflexivity]. replace (h_base e =? -1) with true by lia. reflexivity. }
+  rewrite Hws0.
   (* the base the storage finds *)
   set (pick := fun kept : list (Z * snap) =>
          match last_opt kept with Some (t0, s) => if t0 =? h_base e then Some s else None | None => None end).
@@ -266,7 +273,8 @@ Proof.
     destruct (split_old_incl _ _ _ _ Es) as [Hk _].
     assert (Hkl : snaps_like h kept) by (intros t0 X0 Hin; apply Hsn, Hk, Hin).
     fold (pick kept). destruct (pick kept) as [b|] eqn:Ep.
-    2:{ cbn [fst snd st_snaps]. split; [exact Hkl|]. split; [exact I|]. intros X H; discriminate. }
+    2:{ cbn [fst snd st_snaps]. split; [exact Hkl|]. split; [exact I|]. split; [intros X H; discriminate|].
+        split; [intros e' [= <-]; right; reflexivity|reflexivity]. }
     assert (HBL : base_like h (h_base e) b).
     { right. split; [lia|]. unfold pick in Ep. destruct (last_opt kept) as [[t0 s0]|] eqn:El; [|discriminate].
       destruct (t0 =? h_base e) eqn:Et; [|discriminate]. injection Ep as ->.
@@ -281,9 +289,10 @@ Proof.
     { intros t0 X0 [[= <- <-]|Hin]; [exists e; split; assumption|apply Hkl, Hin]. }
     destruct (MAX_STORED_SNAPSHOT <? zlen ((t, X) :: kept)).
     + destruct (last_opt_some ((t, X) :: kept) ltac:(discriminate)) as [[tl sl] El]. rewrite El.
-      cbn [fst snd st_snaps]. split; [|split; [exact I|intros X0 [= <-]; exact HL]].
+      cbn [fst snd st_snaps map app]. split; [|split; [exact I|split; [intros X0 [= <-]; exact HL|split; [intros e' H; discriminate|reflexivity]]]].
       intros t0 X0 Hin. apply Hnew. apply (remove_last_incl _ _ Hin).
-    + cbn [fst snd st_snaps]. split; [exact Hnew|]. split; [exact I|]. intros X0 [= <-]. exact HL.
+    + cbn [fst snd st_snaps map app]. split; [exact Hnew|]. split; [exact I|]. split; [intros X0 [= <-]; exact HL|].
+      split; [intros e' H; discriminate|reflexivity].
   - assert (HBL : base_like h (h_base e) snap_empty) by (left; split; [lia|reflexivity]).
     destruct (Hap snap_empty HBL) as (X & Eap & HL).
     destruct (like_same _ _ HL) as (_ & _ & Hcrc & _).
@@ -294,10 +303,24 @@ Proof.
     { intros t0 X0 [[= <- <-]|Hin]; [exists e; split; assumption|apply Hsn, Hin]. }
     destruct (MAX_STORED_SNAPSHOT <? zlen ((t, X) :: st_snaps st)).
     + destruct (last_opt_some ((t, X) :: st_snaps st) ltac:(discriminate)) as [[tl sl] El]. rewrite El.
-      cbn [fst snd st_snaps]. split; [|split; [exact I|intros X0 [= <-]; exact HL]].
+      cbn [fst snd st_snaps map app]. split; [|split; [exact I|split; [intros X0 [= <-]; exact HL|split; [intros e' H; discriminate|reflexivity]]]].
       intros t0 X0 Hin. apply Hnew. apply (remove_last_incl _ _ Hin).
-    + cbn [fst snd st_snaps]. split; [exact Hnew|]. split; [exact I|]. intros X0 [= <-]. exact HL.
+    + cbn [fst snd st_snaps map app]. split; [exact Hnew|]. split; [exact I|]. split; [intros X0 [= <-]; exact HL|].
+      split; [intros e' H; discriminate|reflexivity].
 Qed.
+
+(* the only ways a message the sender made can be refused: it is old, a duplicate part, part of a
+   transfer of more than 32 parts, or its base is not (any longer) held - never a checksum failure,
+   never a delta that does not parse or apply *)
+Definition refusal (e : merr) : bool :=
+  match e with
+  | MReceiver OldDelta | MReceiver DuplicatePart | MReceiver InvalidNumParts
+  | MStorage SOldDelta | MStorage SUnknownSnap => true
+  | _ => false
+  end.
+
+Definition only_receiver_warnings (ws : list mwarn) : bool :=
+  forallb (fun w => match w with MWReceiver _ => true | _ => false end) ws.
 
 (* one message of a genuine transfer reaches the Manager *)
 Theorem manager_feed_genuine h mg x m :
@@ -306,7 +329,9 @@ Theorem manager_feed_genuine h mg x m :
   minv h (fst r)
   /\ fine_out (fst (snd r))
   /\ msg_tick m = x_tick x
-  /\ forall X, fst (snd r) = Ok (Some X) -> exists e, aget (x_tick x) h = Some e /\ like (h_snap e) X.
+  /\ (forall X, fst (snd r) = Ok (Some X) -> exists e, aget (x_tick x) h = Some e /\ like (h_snap e) X)
+  /\ (forall e, fst (snd r) = Err e -> refusal e = true)
+  /\ only_receiver_warnings (snd (snd r)) = true.
 Proof.
   intros Hok [Hr Hs] Hg Hin. pose proof Hg as (e & He & Ex).
   destruct (Hok _ e He) as [E _].
@@ -314,7 +339,10 @@ Proof.
   { rewrite Ex. cbn [x_base x_of]. pose proof (eo_base _ _ _ E). pose proof (eo_tick _ _ _ E).
     unfold is_i32, i32_min, i32_max in *. lia. }
   assert (Hlen : Z.of_nat (length (x_data x)) <= 65536) by (rewrite Ex; cbn [x_data x_of]; apply (eo_len _ _ _ E)).
-  destruct (recv_genuine (genuine h) (genuine_uniq h) (m_recv mg) x m Hr Hg Hb32 Hlen Hin) as (Hr' & Hnp & Hrd).
+  destruct (recv_genuine (genuine h) (genuine_uniq h) (m_recv mg) x m Hr Hg Hb32 Hlen Hin) as (Hr' & Hnp & Hrd & Hre).
+  assert (Hrw : forall rws : list rwarn, only_receiver_warnings (map MWReceiver rws) = true).
+  { intros rws. unfold only_receiver_warnings. rewrite forallb_forall. intros w Hw. apply in_map_iff in Hw.
+    destruct Hw as (w0 & <- & _). reflexivity. }
   assert (Htick : msg_tick m = x_tick x).
   { unfold x_msgs, xfer_msgs in Hin. destruct (nparts (x_data x)) as [|[|k]].
     - destruct Hin as [<-|[]]. reflexivity.
@@ -322,7 +350,7 @@ Proof.
     - unfold multi_msgs in Hin. apply in_map_iff in Hin. destruct Hin as [i [<- _]]. reflexivity. }
   cbv zeta. unfold manager_feed.
   pose proof (recv_no_fuel (m_recv mg) m) as Hnf.
-  destruct (recv_step (m_recv mg) m) as [r' [res rws]]. cbn [fst snd] in Hr', Hnp, Hrd, Hnf.
+  destruct (recv_step (m_recv mg) m) as [r' [res rws]]. cbn [fst snd] in Hr', Hnp, Hrd, Hnf, Hre.
   destruct res as [[rd|]|e0|s0|]; try discriminate; try (exfalso; apply Hnf; reflexivity).
   - (* the receiver hands a complete delta to the storage *)
     specialize (Hrd rd eq_refl). subst rd.
@@ -330,14 +358,21 @@ Proof.
     rewrite Ex. cbn [x_data x_of x_crc x_base x_tick].
     destruct (h_bytes e) as [|b0 bs0] eqn:Eb; [exfalso; apply (eo_ne _ _ _ E), Eb|]. rewrite <- Eb.
     destruct (eo_apply _ _ _ E) as (d & Ed & _). rewrite Ed.
-    destruct (add_delta_genuine h (m_store mg) (x_tick x) e d Hok Hs He Ed) as (Hs' & Hf & HX).
+    destruct (add_delta_genuine h (m_store mg) (x_tick x) e d Hok Hs He Ed) as (Hs' & Hf & HX & HE & HW).
     destruct (add_delta (m_store mg) (Some (Snap.crc (sn_raw (h_snap e)))) (h_base e) (x_tick x) d) as [st' [r2 ws2]].
-    cbn [fst snd] in *. split; [split; [exact Hr'|exact Hs']|].
+    cbn [fst snd] in *. subst ws2. cbn [map app]. rewrite app_nil_r.
+    split; [split; [exact Hr'|exact Hs']|].
     destruct r2 as [X|e2|s2|]; cbn [lift_st fst snd]; try contradiction.
-    + split; [exact I|]. split; [exact Htick|]. intros X0 [= <-]. exists e. split; [exact He|apply HX; reflexivity].
-    + split; [exact I|]. split; [exact Htick|]. intros X0 H; discriminate.
-  - cbn [fst snd]. split; [split; assumption|]. split; [exact I|]. split; [exact Htick|]. intros X0 H; discriminate.
-  - cbn [fst snd]. split; [split; assumption|]. split; [exact I|]. split; [exact Htick|]. intros X0 H; discriminate.
+    + split; [exact I|]. split; [exact Htick|].
+      split; [intros X0 [= <-]; exists e; split; [exact He|apply HX; reflexivity]|].
+      split; [intros e0 H; discriminate|apply Hrw].
+    + split; [exact I|]. split; [exact Htick|]. split; [intros X0 H; discriminate|].
+      split; [|apply Hrw]. intros e0 [= <-]. destruct (HE e2 eq_refl) as [-> | ->]; reflexivity.
+  - cbn [fst snd]. split; [split; assumption|]. split; [exact I|]. split; [exact Htick|].
+    split; [intros X0 H; discriminate|]. split; [intros e1 H; discriminate|apply Hrw].
+  - cbn [fst snd]. split; [split; assumption|]. split; [exact I|]. split; [exact Htick|].
+    split; [intros X0 H; discriminate|]. split; [|apply Hrw].
+    intros e1 [= <-]. destruct (Hre e0 eq_refl) as [->|[->|[-> _]]]; reflexivity.
 Qed.
 
 (* ---------- the link ---------- *)
@@ -395,7 +430,7 @@ Proof.
     destruct (nth_error (l_chan s) k) as [m|] eqn:En.
     2:{ eexists _, _. split; [reflexivity|]. split; assumption. }
     apply nth_error_In in En. destruct (Ic m En) as (x & Hg & Hmx).
-    destruct (manager_feed_genuine _ (l_mgr s) x m (si_hist _ Is) Im Hg Hmx) as (Im' & Hf & Htick & HX).
+    destruct (manager_feed_genuine _ (l_mgr s) x m (si_hist _ Is) Im Hg Hmx) as (Im' & Hf & Htick & HX & _).
     unfold deliver.
     destruct (manager_feed sz (l_mgr s) m) as [mg' [r ws]]. cbn [fst snd] in *.
     destruct r as [[X|]|e0|s0|]; try contradiction; eexists _, _; (split; [reflexivity|]);
@@ -416,6 +451,18 @@ Proof.
     eexists _, _. split; [reflexivity|]. split; assumption.
   - (* ForgeAck *)
     eexists _, _. split; [reflexivity|]. split; assumption.
+Qed.
+
+(* what a Deliver can answer in a state of the invariant *)
+Theorem deliver_refusals s k s' tick r ws ack : linv s ->
+  lstep sz s (Deliver k) = Ok (s', ODeliver tick (r, ws) ack) ->
+  (forall e, r = Err e -> refusal e = true) /\ only_receiver_warnings ws = true.
+Proof.
+  intros [Is Im Ic Ia]. cbn [lstep]. destruct (nth_error (l_chan s) k) as [m|] eqn:En; [|discriminate].
+  apply nth_error_In in En. destruct (Ic m En) as (x & Hg & Hmx).
+  destruct (manager_feed_genuine _ (l_mgr s) x m (si_hist _ Is) Im Hg Hmx) as (_ & _ & _ & _ & HE & HW).
+  unfold deliver. destruct (manager_feed sz (l_mgr s) m) as [mg' [r0 ws0]]. cbn [fst snd] in *.
+  destruct r0 as [[X|]|e0|s0|]; try discriminate; intros [= _ _ <- <- _]; split; assumption.
 Qed.
 
 Theorem lrun_linv tr : forall s, linv s -> follows_api sz s tr = true ->
